@@ -2,6 +2,7 @@
 Helper lemmas for C13: GeneInfo.set_feature_properties (row identity).  Core Lean only.
 -/
 import IsoVerif.Model.FeatureCounts
+import IsoVerif.Lemmas.C13Merge
 
 namespace IsoVerif.Lemmas.C13
 open IsoVerif.Model IsoVerif.Model.C13 IsoVerif.Gen
@@ -64,8 +65,8 @@ theorem setFeatureProperties_get (chr : String) (δ : Int) (features : List Iv) 
     (i : Nat) (f : Iv) (hf : features[i]? = some f) :
     ∃ fi, (setFeatureProperties chr δ features isoforms n)[i]? = some fi ∧
       fi.id = n + i + 1 ∧ fi.chr = chr ∧ fi.start = f.1 ∧ fi.stop = f.2 ∧
-      fi.genes = ((featureEntries isoforms f).map (fun e => e.2.1)).eraseDups ∧
-      fi.strand = concatStrs (sortStrs (((featureEntries isoforms f).map (fun e => e.1)).eraseDups)) := by
+      fi.genes = sortSD strLt ((featureEntries isoforms f).map (fun e => e.2.1)) ∧
+      fi.strand = concatStrs (sortSD strLt ((featureEntries isoforms f).map (fun e => e.1))) := by
   unfold setFeatureProperties
   simp only [List.getElem?_map, List.getElem?_zipIdx, hf, Option.map_some, Nat.zero_add]
   exact ⟨_, rfl, rfl, rfl, rfl, rfl, rfl, rfl⟩
@@ -80,7 +81,7 @@ theorem setFeatureProperties_keys_nodup (chr : String) (δ : Int) (features : Li
       funext x; rfl
     rw [this, List.zipIdx_map_fst]
   have hinj : ∀ a b : FeatureInfo, coordKey a = coordKey b → (a.start, a.stop) = (b.start, b.stop) := by
-    intro a b e; simp [coordKey] at e; simp [e.2.1, e.2.2.1]
+    intro a b e; simp [coordKey] at e; simp [e.2.1, e.2.2]
   rw [← hmap] at h
   rw [List.Nodup, List.pairwise_map] at h ⊢
   exact h.imp (fun hne e => hne (hinj _ _ e))
